@@ -123,9 +123,10 @@ def chr_lit(b):
 
 class Val:
     """a concretised (sub)argument"""
-    __slots__ = ("ctype", "expr", "otype", "oexpr", "same", "adj", "decl", "key")
+    __slots__ = ("ctype", "expr", "otype", "oexpr", "same", "adj", "decl", "key", "calloc")
 
-    def __init__(self, ctype, expr, otype=None, oexpr=None, same=True, adj=0, decl=None, key=None):
+    def __init__(self, ctype, expr, otype=None, oexpr=None, same=True, adj=0, decl=None, key=None, calloc=False):
+        self.calloc = calloc    # copy-constructing this value allocates
         self.ctype, self.expr = ctype, expr
         self.otype = otype if otype is not None else ctype
         self.oexpr = oexpr if oexpr is not None else expr
@@ -141,6 +142,7 @@ class Gen:
         self.uses_bk = False
         self.uses_bkref = False
         self.fix = {}           # one C++ type per abstract leaf type within a statement (containers are homogeneous)
+        self.map_pair_copy = False  # a map-family element whose key or mapped value allocates when copied
 
     # ---- bytes for an abstract byte string (0 = NUL, 1 = any other byte)
     def run_len(self):
@@ -248,7 +250,7 @@ class Gen:
             else:
                 body = f"std::string({lit(bs)}, {len(bs)})" if bs else "std::string()"
             if k == "str":
-                return Val("std::string", body, adj=adj)
+                return Val("std::string", body, adj=adj, calloc=len(bs) > 15)
             if k == "sv":
                 if not bs and not in_container and r.random() < 0.5:
                     return Val("std::string_view", "std::string_view()")
@@ -260,7 +262,7 @@ class Gen:
                        oexpr=view, same=False)
         if k == "path":
             bs = self.bytes_for(v)
-            return Val("std::filesystem::path", f"std::filesystem::path{{std::string({lit(bs)}, {len(bs)})}}", adj=len(bs) - len(v))
+            return Val("std::filesystem::path", f"std::filesystem::path{{std::string({lit(bs)}, {len(bs)})}}", adj=len(bs) - len(v), calloc=True)
         if k == "dur":
             if "dur" not in self.fix:
                 self.fix["dur"] = r.choice(["std::chrono::nanoseconds", "std::chrono::microseconds", "std::chrono::milliseconds",
@@ -286,14 +288,14 @@ class Gen:
             return Val("vt::DNon", f"vt::DNon({r.choice(['0', '-5', '77'])}, {r.choice(['0', '-1', _lim('int64_t', 'max')])})")
         if k == "dalloc":
             bs = self.nonnul(r.choice([0, 3, 15, 16, 40]))
-            return Val("vt::DAlloc", f"vt::DAlloc{{std::string({lit(bs)}, {len(bs)}), std::vector<int>{{1, -2, 3}}}}")
+            return Val("vt::DAlloc", f"vt::DAlloc{{std::string({lit(bs)}, {len(bs)}), std::vector<int>{{1, -2, 3}}}}", calloc=True)
         if k == "direct":
             a = r.choice([0, -1, 42, -2**31, 2**31 - 1])
             bs = self.nonnul(r.choice([0, 1, 2, 9, 20]))
             flen = 3 + len(str(a)) + 1 + len(bs) + 1          # "DR<" a "," s ">"
             ae = _lim("int32_t", "min") if a == -2**31 else str(a)
             e = f"vt::Dir{{{ae}, std::string({lit(bs)}, {len(bs)})}}"
-            return Val("vt::Dir", e, otype="std::string", oexpr=f'vh::F("{{}}", {e})', same=False, adj=flen - len(v))
+            return Val("vt::Dir", e, otype="std::string", oexpr=f'vh::F("{{}}", {e})', same=False, adj=flen - len(v), calloc=len(bs) > 15)
         raise Unrealisable("leaf " + k)
 
     # ---- trees
@@ -336,7 +338,7 @@ class Gen:
                 same = all(x.same for x in kids)
                 ot = f"std::array<{eot}, {t['n']}>"
                 oe = f"{ot}{{{{{', '.join(x.oexpr for x in kids)}}}}}"
-                return Val(ct, e, ot, oe if not same else e, same, adj)
+                return Val(ct, e, ot, oe if not same else e, same, adj, calloc=any(x.calloc for x in kids))
             ct = f"{SEQ1[k]}<{ect}>"
             e = f"{ct}{{{', '.join(x.expr for x in kids)}}}"
             same = all(x.same for x in kids)
@@ -348,10 +350,10 @@ class Gen:
                     bit = self.nalt_bits
                     self.nalt_bits += 1
                     oe = f"vh::perm2<{ot}>((alt >> {bit}) & 1, static_cast<{eot}>({kids[0].oexpr}), static_cast<{eot}>({kids[1].oexpr}))"
-                return Val(ct, e, ot, oe, False, adj)
+                return Val(ct, e, ot, oe, False, adj, calloc=True)
             ot = f"{SEQ1[k]}<{eot}>"
             oe = f"{ot}{{{', '.join(x.oexpr for x in kids)}}}"
-            return Val(ct, e, ot, oe if not same else e, same, adj)
+            return Val(ct, e, ot, oe if not same else e, same, adj, calloc=len(kids) > 0)
         if k == "opt":
             et = t["p"][0]
             if not v:
@@ -362,7 +364,8 @@ class Gen:
             kid = self.node(et, v[0], True)
             ct = f"std::optional<{kid.ctype}>"
             ot = f"std::optional<{kid.otype}>"
-            return Val(ct, f"{ct}{{{kid.expr}}}", ot, f"{ot}{{{kid.oexpr}}}" if not kid.same else f"{ct}{{{kid.expr}}}", kid.same, kid.adj)
+            return Val(ct, f"{ct}{{{kid.expr}}}", ot, f"{ot}{{{kid.oexpr}}}" if not kid.same else f"{ct}{{{kid.expr}}}", kid.same, kid.adj,
+                       calloc=kid.calloc)
         if k in MAPS:
             kt, vt_ = t["p"]
             multi = k in ("mmap", "ummap")
@@ -392,6 +395,8 @@ class Gen:
             e = f"{ct}{{{', '.join(f'{ct}::value_type({a.expr}, {b.expr})' for a, b in zip(keys, vals))}}}"
             adj = sum(x.adj for x in keys) + sum(x.adj for x in vals)
             same = all(x.same for x in vals)
+            if any(x.calloc for x in keys) or any(x.calloc for x in vals):
+                self.map_pair_copy = True
             if k in UNORDERED and keys:
                 ot = f"vh::PermMap<{kct}, {vot}>"
                 pt = f"std::pair<{kct}, {vot}>"
@@ -402,10 +407,10 @@ class Gen:
                     self.nalt_bits += 1
                     oe = (f"vh::perm2<{ot}>((alt >> {bit}) & 1, {pt}({keys[0].oexpr}, {vals[0].oexpr}), "
                           f"{pt}({keys[1].oexpr}, {vals[1].oexpr}))")
-                return Val(ct, e, ot, oe, False, adj)
+                return Val(ct, e, ot, oe, False, adj, calloc=True)
             ot = f"{MAPS[k]}<{kct}, {vot}>"
             oe = f"{ot}{{{', '.join(f'{ot}::value_type({a.oexpr}, {b.oexpr})' for a, b in zip(keys, vals))}}}"
-            return Val(ct, e, ot, oe if not same else e, same, adj)
+            return Val(ct, e, ot, oe if not same else e, same, adj, calloc=len(keys) > 0)
         if k in ("pair", "tup"):
             kids = [self.node(pt, x, True) for pt, x in zip(t["p"], v)]
             tmpl = "std::pair" if k == "pair" else "std::tuple"
@@ -414,7 +419,7 @@ class Gen:
             e = f"{ct}{{{', '.join(x.expr for x in kids)}}}"
             same = all(x.same for x in kids)
             oe = f"{ot}{{{', '.join(x.oexpr for x in kids)}}}"
-            return Val(ct, e, ot, oe if not same else e, same, sum(x.adj for x in kids))
+            return Val(ct, e, ot, oe if not same else e, same, sum(x.adj for x in kids), calloc=any(x.calloc for x in kids))
         raise Unrealisable("kind " + k)
 
     def _retype(self, t, v, ctype, in_container, key):
@@ -503,6 +508,8 @@ def build_case(cid, beh, rng, consts, fresh=0, big=None, origin=""):
             macro, fam = "LOG_DYNAMIC", "dyn"
         elif rng.random() < 0.2 and len(args) <= 20:
             macro, fam = "LOGV_INFO", "logv"
+        elif rng.random() < 0.12:
+            macro, fam = rng.choice(["LOG_INFO_TAGS", "LOG_ERROR_TAGS", "LOG_DEBUG_TAGS"]), "tags"
         else:
             macro, fam = rng.choice(MACROS_PLAIN), "plain"
         tag = f"c{cid}s{si}"
@@ -528,6 +535,8 @@ def build_case(cid, beh, rng, consts, fresh=0, big=None, origin=""):
         L.append(f"      h.log_begin({'sizeof(quill::LogLevel)' if dyn else '0'});")
         if fam == "dyn":
             L.append(f"      LOG_DYNAMIC(h.logger, quill::LogLevel::{rng.choice(DYN_LEVELS)}, {json.dumps(call_fmt)}, {names});")
+        elif fam == "tags":
+            L.append(f"      {macro}(h.logger, TAGS(\"verif\", \"c{cid}\"), {json.dumps(call_fmt)}, {names});")
         else:
             L.append(f"      {macro}(h.logger, {json.dumps(call_fmt)}, {names});")
         L.append("      h.log_end();")
@@ -548,7 +557,7 @@ def build_case(cid, beh, rng, consts, fresh=0, big=None, origin=""):
         out.append(dict(si=si, types=[tystr(a["ty"]) for a in args], ctypes=[tp["ctype"] for tp in tops], fmt=fmt,
                         macro=macro, dyn=dyn, mut=s["mut"], poll_after=s["poll_after"], has_sref=has_sref,
                         pred=st["size"] + adj, model_size=st["size"], npush=st["npush"], clears=bool(st["clears"]),
-                        cls=cls, nalt=nalt, depth=max(depth_of(a["ty"]) for a in args),
+                        cls=cls, nalt=nalt, map_pair_copy=g.map_pair_copy, depth=max(depth_of(a["ty"]) for a in args),
                         kinds=sorted(set().union(*[kinds_of(a["ty"]) for a in args])), big=bool(big and si == len(stmts) - 1)))
     cpp = [f"static void case_{cid}(vh::H& h)", "{", "  for (int rep = 0; rep < 2; ++rep)", "  {",
            "    vh::Backing bkref;  // what a StringRef points to must outlive the backend's processing (by design)",
